@@ -107,7 +107,7 @@ class StmtMixin:
             import inspect
             d = inspect.getattr_static(base.cls, name, None)
             if isinstance(d, property) and d.fset is not None:
-                res = self.call_function(st, d.fset, [base, v], {}, node, selfcls=base.cls)
+                res = self.call_function(st, d.fset, [base, v], {}, node, selfcls=base.cls, setter=True)
                 return [(s, ("raise", r) if is_exc(r) else None) for s, r in res]
             if base.term is not None:
                 raise OutOfSubset("write to an object after it escaped", node)
@@ -122,7 +122,7 @@ class StmtMixin:
         if lb.cls is not None:
             d = inspect.getattr_static(lb.cls, name, None)
             if isinstance(d, property) and d.fset is not None:
-                res = self.call_function(st, d.fset, [lb, v], {}, node, selfcls=lb.cls)
+                res = self.call_function(st, d.fset, [lb, v], {}, node, selfcls=lb.cls, setter=True)
                 return [(s, ("raise", r) if is_exc(r) else None) for s, r in res]
         lv = self.lift(v)
         old = f"({self.cur_attr(st, name)} {asV(lb)})"
@@ -177,6 +177,9 @@ class StmtMixin:
         if isinstance(v, (SymObj, PyList)):
             return
         if isinstance(v, PyC):
+            from statham.schema.constants import NotPassed
+            if v.obj is None or isinstance(v.obj, (bool, int, float, str, tuple, frozenset, NotPassed)):
+                return      # immutable: nothing to modify
             self.obl("frame", node, st, FALSE, detail=f"callee {c.name} modifies constant {m}")
             return
         # resolve one attribute level: 'self.x' -> attr x of v
@@ -200,6 +203,15 @@ class StmtMixin:
                 res = self.call_function(st, d, [base, idx, v], {}, node, selfcls=cls)
                 return [(s, ("raise", r) if is_exc(r) else None) for s, r in res]
         lb, li, lv = self.lift(base), self.lift(idx), self.lift(v)
+        if lb.kind == "list" and (li.sort == "I" or li.kind == "int"):
+            self.frame_write(st, lb, lb.origin or ast.unparse(base_node), node)
+            sq = f"(lval {asV(lb)})"
+            i = f"(norm_index (seq.len {sq}) {asI(li)})"
+            new = f"(v_list (seq.++ (seq.extract {sq} 0 {i}) (seq.unit {asV(lv)}) (seq.extract {sq} (+ {i} 1) (- (seq.len {sq}) (+ {i} 1)))))"
+            nv = Val(new, kind="list", fresh=lb.fresh, origin=lb.origin)
+            res = self.raising(st, None, [(IndexError, Not(f"(and (<= 0 {i}) (< {i} (seq.len {sq})))"))], node)
+            out = [(s_, ("raise", r_)) for s_, r_ in res[:-1]]
+            return out + self.store_back(res[-1][0], base_node, nv, node)
         if lb.kind != "dict":
             raise OutOfSubset(f"item assignment on {lb.kind}", node)
         self.frame_write(st, lb, lb.origin or ast.unparse(base_node), node)
